@@ -56,7 +56,7 @@ func init() {
 		{ID: "C05", Engine: "exec", Level: "exploration", Rule: execRule("some plugin invocation failed (retry, permanent error, wrong type or timeout)")},
 		{ID: "C06", Engine: "exec", Level: "exploration", Rule: execRule("a bypass group ran, or a pre-check or the initial run of a continuous check failed")},
 		{ID: "C07", Engine: "exec", Level: "exploration", Rule: execRule("a continuous check ran at least twice, or a scope with deferred checks failed")},
-		{ID: "C08", Engine: "exec", Level: "exploration", Rule: execRule("a retry happened or a Status poller observed the plan more than once")},
+		{ID: "C08", Engine: "exec", Level: "exploration", Mode: "with-failstop", Rule: execRule("a retry happened or a Status poller observed the plan more than once") + "; second pass (fail-stop, C08.r5): generated worlds re-run in a child process in which the n-th durable write (sampled n) returns an error: the process must exit at that write (evaluations include these child runs, each non-trivial and distinct by (world, n, failed operation))"},
 		{ID: "C12", Engine: "exec", Level: "exploration", Rule: execRule("a plan saw >= 2 Start calls, an unknown id was used, or a start around maxSubmit was tried")},
 	} {
 		p.QuickMs, p.ThorMs = 40_000, 600_000
@@ -320,20 +320,24 @@ func check(id, tier string) int {
 	}
 	wg.Wait()
 
-	if p.Mode == "with-kill" {
-		// second pass: createkill engine, same budget
+	if second := map[string]string{"with-kill": "createkill", "with-failstop": "failstop"}[p.Mode]; second != "" {
+		// second pass with another engine
+		wall2 := wall
+		if second == "failstop" {
+			wall2 = wall / 3
+		}
 		kres := make([]*workerResult, nw)
 		var wg2 sync.WaitGroup
 		for k := 0; k < nw; k++ {
 			wg2.Add(1)
 			go func(k int) {
 				defer wg2.Done()
-				job := map[string]any{"engine": "createkill", "property": id, "tier": tier, "baseSeed": baseSeed, "offset": k, "stride": nw,
-					"maxRuns": maxRuns, "wallMs": wall, "replayDir": replayDir, "minimize": 0}
+				job := map[string]any{"engine": second, "property": id, "tier": tier, "baseSeed": baseSeed, "offset": k, "stride": nw,
+					"maxRuns": maxRuns, "wallMs": wall2, "replayDir": replayDir, "minimize": 0}
 				res, crashed, tail, _ := runWorker(simBin, job, dir, 500+k, "2")
 				if crashed {
 					mu.Lock()
-					deaths = append(deaths, death{-1, "createkill worker: " + tail})
+					deaths = append(deaths, death{-1, second + " worker: " + tail})
 					mu.Unlock()
 					return
 				}
